@@ -96,7 +96,7 @@ def run(prog, rep):
     rep.check(bool(tests), "PROV-6", "reader is_valid_argument tests fmt.arguments_keys", "ok",
               "is_valid_argument no longer tests membership in the format's arguments_keys", iva.where)
     tests = [n for n in ast.walk(pt.node) if isinstance(n, ast.Compare)
-             and any(isinstance(o, ast.In) for o in n.ops)
+             and any(isinstance(o, (ast.In, ast.NotIn)) for o in n.ops)
              and unparse(n.comparators[0]).endswith(".arguments_keys")]
     rep.check(bool(tests), "PROV-6", "reader parse_tag tests fmt.arguments_keys", "ok",
               "parse_tag no longer tests element names against the format's arguments_keys", pt.where)
